@@ -5,6 +5,7 @@ LEAN_MODULE = "Urandom.Props.C01"
 DISAGREEMENT_IS_FAILING_INPUT = True   # Model.run = Spec.run is proved: impl != model  ==>  impl != published algorithm
 RULE = ("requests: generator x (seed | injected 256-bit state) x constructor path (from_seed, urandom::seeded, from_rng via Mock, serde) x "
         "random op history over {u32,u64,f32,f64,fill:n,jump,clone,split} (length 0..60, fill lengths clustered at 0..17 and larger); "
+        "SplitMix64 / Wyrand additionally from seeds computed backwards so that the state at a draw is a structured word (zero / all-ones 32-bit halves, single bits, the source's constants xor such words); "
         "every output and the final state are compared with the Lean model. non-trivial = history contains at least one op; distinct = distinct request line")
 TRUSTED = ["Spec/Published.lean is a transcription of Vigna's splitmix64.c / xoshiro256plusplus.c / xoshiro256plus.c and wyhash's wyrand (anchored by published known-answer vectors)"]
 ASSUMPTIONS = ["64-bit little-endian target only"]
@@ -43,6 +44,20 @@ def seed_value(r):
 def generate(r, tier, build):
     n = 1500 if tier == "quick" else 40000
     reqs = []
+    # SplitMix64 / Wyrand driven into structured internal states (zero / all-ones halves, single bits, the source's constants): the operand
+    # classes of the 64x64 multiplications and their carry chains
+    from .gen_int import weyl_seed_for
+    for i in range(600 if tier == "quick" else 20000):
+        gen = r.choice(["wyrand", "wyrand", "splitmix"])
+        draws, jumps = r.choice([1, 1, 2, 3, 5]), r.choice([0, 0, 0, 1, 2])
+        seed, _ = weyl_seed_for(r, gen, draws, jumps)
+        pre = ["u64"] * (draws - 1) + ["jump"] * jumps
+        for _ in range(3):
+            r_i = r.below(len(pre) + 1)
+        ops = pre[:]
+        # the draw that lands on the structured state, then a few more of every kind
+        ops += [r.choice(["u64", "u64", "fill:8", "fill:16", "u32", "f64", "f32", "fill:%d" % r.range(1, 24)])] + [r.choice(["u64", "u32", "f64", "fill:9"]) for _ in range(r.below(3))]
+        reqs.append("word gen=%s seed=%d via=from_seed ops=%s" % (gen, seed, ",".join(ops)))
     for i in range(n):
         gen = r.choice(["xoshiro", "xoshiro", "splitmix", "wyrand"])
         ops = ",".join(history(r))
